@@ -29,7 +29,8 @@ RULE = ("one case = one target set built from points, rectangles and holes; "
         "sets; distinct by case")
 ASSUMPTIONS = ["core numbers 0..17, chip coordinates 0..255 (others must "
                "raise ValueError)"]
-FLOORS = {"decode_compare": 100, "collapsed_words": 50, "chip_word": 100}
+FLOORS = {"decode_compare": 100, "collapsed_words": 50, "chip_word": 100,
+          "staged_read": 100}
 SHARDS = {"quick": 16, "thorough": 48}
 ANCHORS = [("rig.machine_control.regions", "RegionCoreTree.add_core",
             {"collapse": "self.locally_selected[p] = 0x0",
@@ -37,7 +38,7 @@ ANCHORS = [("rig.machine_control.regions", "RegionCoreTree.add_core",
                  "if self.subregions[subregion].add_core(x, y, p):"})]
 
 CLASSES = ["sparse", "aligned", "nearfull", "straddle", "percore", "mixed",
-           "chipword", "invalid"]
+           "chipword", "invalid", "staged"]
 
 
 def plan(tier):
@@ -63,6 +64,24 @@ def gen(cls, idx, rng, tier):
         bad = rng.choice([(256, 3, 1), (3, 256, 1), (-1, 0, 0), (0, -1, 0),
                           (5, 5, 18), (5, 5, -1), (300, 300, 30)])
         return dict(kind="invalid", bad=bad)
+    if cls == "staged":
+        # the tree is filled in several stages and read after each of them
+        stages = []
+        base = gen(rng.choice(["aligned", "nearfull", "percore", "sparse"]),
+                   idx, rng, tier)
+        ops_all = base["ops"]
+        ox, oy = rng.randrange(0, 240, 4), rng.randrange(0, 240, 4)
+        cs = rcores(rng, 1, 2)
+        # a block that completes only in a later stage
+        ops_all += [("rect", ox, oy, 4, 3, cs), ("rect", ox, oy + 3, 4, 1, cs),
+                    ("pt", ox + 1, oy + 1, rcores(rng, 1, 2))]
+        rng.shuffle(ops_all)
+        k = rng.randint(2, 4)
+        for i in range(k):
+            stages.append([op for j, op in enumerate(ops_all) if j % k == i
+                           and op[0] != "hole"])
+        return dict(kind="staged", stages=stages,
+                    shuffle=rng.randrange(1 << 30))
     if cls == "everything":
         return dict(kind="set", ops=[("rect", 0, 0, 256, 256,
                                       list(range(18)))], shuffle=0)
@@ -146,6 +165,42 @@ def chips_of(region):
                     yield (x, y)
 
 
+def judge_pairs(ctx, out, targets, check_order=True):
+    sel = collections.Counter()
+    levels = collections.Counter()
+    for pair in out:
+        region, mask = pair
+        check(0 <= region < 1 << 32 and 0 < mask < 1 << 18 and
+              region & 0xffff, "malformed-pair", "%#x %#x" % (region, mask))
+        level, bx, by, size = decode(region)
+        check(bx % (4 * size) == 0 and by % (4 * size) == 0 and
+              bx + 4 * size <= 256 and by + 4 * size <= 256,
+              "region-base-misaligned", "%#x" % region)
+        levels[level] += 1
+        cores = [c for c in range(18) if mask >> c & 1]
+        for xy in chips_of(region):
+            for c in cores:
+                sel[(xy, c)] += 1
+    exp = {(xy, c) for xy, cs in targets.items() for c in cs}
+    got = set(sel)
+    if got != exp:
+        miss, extra = sorted(exp - got), sorted(got - exp)
+        check(not miss, "core-missing", "%d requested cores not selected, "
+              "e.g. %r" % (len(miss), miss[:4]), n_out=len(out))
+        check(not extra, "core-extra", "%d unrequested cores selected, e.g. %r"
+              % (len(extra), extra[:4]), n_out=len(out))
+    dups = [k for k, n in sel.items() if n > 1]
+    check(not dups, "core-selected-twice", "%d cores, e.g. %r" %
+          (len(dups), sorted(dups)[:4]))
+    keys = [(r << 32) | m for r, m in out]
+    check(not check_order or all(a < b for a, b in zip(keys, keys[1:])),
+          "order-not-increasing",
+          "pairs %r" % [("%#x" % r, "%#x" % m) for r, m in out[:8]])
+    coarse = sum(n for l, n in levels.items() if l < 3)
+    ctx.hit("collapsed_words", coarse)
+    return exp, levels, coarse
+
+
 def run(case, ctx):
     import importlib
     R = importlib.import_module("rig.machine_control.regions")
@@ -184,6 +239,23 @@ def run(case, ctx):
                      for c in range(32) if m >> c & 1]
         check(False, "invalid-target-accepted",
               "target %r gave %r" % (case["bad"], out[:4]), selected=raise_sel[:5])
+    if case["kind"] == "staged":
+        tree = R.RegionCoreTree()
+        so_far = []
+        for stage in case["stages"]:
+            so_far += stage
+            add = list(expand(stage).items())
+            random.Random(case["shuffle"]).shuffle(add)
+            for (x, y), cs in add:
+                for c in sorted(cs):
+                    tree.add_core(x, y, c)
+            out = list(tree.get_regions_and_coremasks())
+            # the order of a raw traversal is not part of the property (the
+            # flood-fill entry point sorts); exactness at every stage is
+            judge_pairs(ctx, out, expand(so_far), check_order=False)
+            ctx.hit("staged_read")
+        ctx.mark_nontrivial()
+        return "ok"
     targets = expand(case["ops"])
     items = list(targets.items())
     if case["shuffle"]:
@@ -192,37 +264,7 @@ def run(case, ctx):
     out = list(R.compress_flood_fill_regions(arg))
     ctx.hit("decode_compare")
     check(arg == targets, "argument-mutated", "targets dict changed")
-    sel = collections.Counter()
-    levels = collections.Counter()
-    for pair in out:
-        region, mask = pair
-        check(0 <= region < 1 << 32 and 0 < mask < 1 << 18 and
-              region & 0xffff, "malformed-pair", "%#x %#x" % (region, mask))
-        level, bx, by, size = decode(region)
-        check(bx % (4 * size) == 0 and by % (4 * size) == 0 and
-              bx + 4 * size <= 256 and by + 4 * size <= 256,
-              "region-base-misaligned", "%#x" % region)
-        levels[level] += 1
-        cores = [c for c in range(18) if mask >> c & 1]
-        for xy in chips_of(region):
-            for c in cores:
-                sel[(xy, c)] += 1
-    exp = {(xy, c) for xy, cs in targets.items() for c in cs}
-    got = set(sel)
-    if got != exp:
-        miss, extra = sorted(exp - got), sorted(got - exp)
-        check(not miss, "core-missing", "%d requested cores not selected, "
-              "e.g. %r" % (len(miss), miss[:4]), n_out=len(out))
-        check(not extra, "core-extra", "%d unrequested cores selected, e.g. %r"
-              % (len(extra), extra[:4]), n_out=len(out))
-    dups = [k for k, n in sel.items() if n > 1]
-    check(not dups, "core-selected-twice", "%d cores, e.g. %r" %
-          (len(dups), sorted(dups)[:4]))
-    keys = [(r << 32) | m for r, m in out]
-    check(all(a < b for a, b in zip(keys, keys[1:])), "order-not-increasing",
-          "pairs %r" % [("%#x" % r, "%#x" % m) for r, m in out[:8]])
-    coarse = sum(n for l, n in levels.items() if l < 3)
-    ctx.hit("collapsed_words", coarse)
+    exp, levels, coarse = judge_pairs(ctx, out, targets)
     distinct_sets = len({frozenset(cs) for cs in targets.values()})
     if coarse or distinct_sets >= 3:
         ctx.mark_nontrivial()
